@@ -487,6 +487,32 @@ def gen_cases(ctx, prop, n):
         elif prop == "C11":
             opts = {"n_normal": rng.choice([2, 4, 8]), "n_hft": rng.choice([0, 1, 3])}
         cfg = rc.gen_config(rng, opts=opts)
+        if prop == "C09" and i % 5 in (1, 3):
+            # "whatever events are configured": built-in events, in particular a trading halt that
+            # is still in force when its (execution) session ends and a no-execution session follows
+            mk = [m for m in cfg["simulation"]["markets"] if m.startswith("M")]
+            ses = cfg["simulation"]["sessions"]
+            if len(ses) < 2:
+                ses.append(dict(ses[0], sessionName=1))
+            ses[0].update({"withOrderPlacement": True, "withOrderExecution": True, "iterationSteps": rng.choice([3, 5, 8]),
+                           "maxNormalOrders": max(3, ses[0]["maxNormalOrders"])})
+            ses[1].update({"withOrderPlacement": True, "withOrderExecution": rng.random() < 0.3,
+                           "iterationSteps": rng.choice([6, 10, 14]), "maxNormalOrders": max(3, ses[1]["maxNormalOrders"])})
+            cfg["THR"] = {"class": "TradingHaltRule", "targetMarkets": [rng.choice(mk)] if rng.random() < 0.6 else mk,
+                          "triggerChangeRate": float(rng.choice([0.0005, 0.002, 0.01])),
+                          "haltingTimeLength": rng.choice([2, 4, 7])}
+            ses[0]["events"] = ["THR"]
+            if rng.random() < 0.5:
+                cfg["PLR"] = {"class": "PriceLimitRule", "targetMarkets": mk[:1], "triggerChangeRate": 0.05}
+                ses[0]["events"].append("PLR")
+            for nm in ("NA", "HA"):
+                if nm in cfg:
+                    cfg[nm]["aggr"] = 0.05
+                    cfg[nm]["pEmpty"] = 0.0
+            if "NA" not in cfg:
+                cfg["NA"] = {"class": "ScriptAgent", "numAgents": 4, "cashAmount": 10000.0, "assetVolume": 50,
+                             "markets": list(cfg["simulation"]["markets"]), "aggr": 0.05, "pEmpty": 0.0}
+                cfg["simulation"]["agents"].append("NA")
         if prop in ("C05", "C11", "C10"):
             for s in cfg["simulation"]["sessions"]:
                 if rng.random() < 0.7:
